@@ -439,7 +439,11 @@ fn build_call(head: &str, model: ArgModel, args: &[(bool, usize)], filler: &str,
             v.push(gap(filler));
         }
         if *named {
-            v.push(other(&format!("k{i}")));
+            // the name of a named argument may itself be a text expression; rotate through the
+            // shapes so that every (position, value shape) meets every name shape in some item
+            let names = ["k{}", "&n", "&n.", "k{}&n", "k{}&n.", "&&n&i", "&n.k{}"];
+            let name = names[(i + *s + args.len()) % names.len()].replace("{}", &i.to_string());
+            v.push(other(&name));
             v.push(gap(filler));
             v.push(delim("=", T::ASSIGN));
             v.push(gap(filler));
@@ -956,19 +960,26 @@ fn c14_items(tier: Tier) -> Vec<Deletion> {
         for fo in follow {
             // %let n=v;  (value starts with a non-name character so that names do not merge)
             for val in ["'v'", "&v", "(1)", "%m(1)", "1"] {
-                // a macro variable or macro call directly after the name continues the name
-                let sep = if f.is_empty() && matches!(val, "1" | "&v" | "%m(1)") { " " } else { f };
-                add("let-assign", format!("%let n{sep}"), format!("{val};{fo}"), E::MissingExpectedAssign, T::ASSIGN, None, vec![]);
-                add("do-assign", format!("%do i{sep}"), format!("{val} %to 3; %end;{fo}"), E::MissingExpectedAssign, T::ASSIGN, None, vec![]);
-                add(
-                    "local-readonly-assign",
-                    format!("%local / readonly a{sep}"),
-                    format!("{val};{fo}"),
-                    E::MissingExpectedAssign,
-                    T::ASSIGN,
-                    None,
-                    vec![],
-                );
+                for name in ["n", "&x", "&x.", "n&x", "n&x.", "%v", "n%v"] {
+                    // a macro variable or macro call directly after the name continues the name;
+                    // '(' directly after a macro call would be its argument list
+                    if name.ends_with("%v") && val == "(1)" {
+                        continue; // '(' after a macro call (even after blanks) is its argument list
+                    }
+                    let glue = matches!(val, "1" | "&v" | "%m(1)");
+                    let sep = if f.is_empty() && glue { " " } else { f };
+                    add("let-assign", format!("%let {name}{sep}"), format!("{val};{fo}"), E::MissingExpectedAssign, T::ASSIGN, None, vec![]);
+                    add("do-assign", format!("%do {name}{sep}"), format!("{val} %to 3; %end;{fo}"), E::MissingExpectedAssign, T::ASSIGN, None, vec![]);
+                    add(
+                        "local-readonly-assign",
+                        format!("%local / readonly {name}{sep}"),
+                        format!("{val};{fo}"),
+                        E::MissingExpectedAssign,
+                        T::ASSIGN,
+                        None,
+                        vec![],
+                    );
+                }
             }
             add("copy-slash", format!("%copy m{}", if f.is_empty() { " " } else { f }), format!("source;{fo}"), E::MissingExpectedFSlash, T::FSLASH, None, vec![]);
             if !fo.is_empty() && !fo.starts_with(';') {
